@@ -21,6 +21,7 @@ type env struct {
 	bufs  map[string][]byte
 	bsis  map[string]*bsiState
 	maps  []mapping // mprotect-ed buffers
+	dense []denseRef
 }
 
 type cmdFunc func(e *env, a []string) string
